@@ -85,6 +85,11 @@ func newRaces() []string {
 				continue
 			}
 			fn := ""
+			if strings.Contains(s, "zzvsched.wgSemaWrite") {
+				// the shim's model of WaitGroup misuse ("Add from zero concurrent with Wait"); the frame of the
+				// waiting go-statement closure is not always on the stack
+				fn = "sync.(*WaitGroup).Wait [first waiter]"
+			}
 			for _, m := range reFrame.FindAllStringSubmatch(s, -1) {
 				name := m[1]
 				if strings.HasPrefix(name, "github.com/pion/transport/v3/") && !strings.Contains(name, "/zzvsched") {
@@ -96,6 +101,9 @@ func newRaces() []string {
 				}
 			}
 			acc = append(acc, fn)
+		}
+		if os.Getenv("VERIF_C19_DUMPLOG") != "" {
+			fmt.Fprintf(os.Stderr, "RACE BLOCK (attributed to %q):\n%s\n", acc, blk)
 		}
 		if len(acc) >= 2 && acc[0] != "" && acc[1] != "" {
 			pair := []string{acc[0], acc[1]}
@@ -290,6 +298,25 @@ func c19objects() []c19obj {
 				{"conn.SetDeadline", func() { _ = c.SetDeadline(zzvsched.Now().Add(time.Millisecond)) }},
 			}
 		}},
+		{name: "udp listener without connections", setup: func() []c19op {
+			// nobody but the listener itself holds the socket: its Close races with the very first datagram
+			fakenet.Reset()
+			l, _ := udp.Listen("udp", &net.UDPAddr{IP: net.IPv4(127, 0, 0, 1), Port: 4000})
+			sock := fakenet.Sockets[0]
+			ra := &net.UDPAddr{IP: net.IPv4(10, 0, 0, 1), Port: 1}
+			rb := &net.UDPAddr{IP: net.IPv4(10, 0, 0, 2), Port: 1}
+			return []c19op{
+				{"listener.Close", func() { _ = l.Close() }},
+				{"datagram-new", func() { sock.Inject(ra, []byte("a0")) }},
+				{"Accept", func() {
+					if cn, err := l.Accept(); err == nil {
+						_, _ = cn.Write([]byte("hi"))
+						_ = cn.Close()
+					}
+				}},
+				{"datagram-new-2", func() { sock.Inject(rb, []byte("b0")) }},
+			}
+		}},
 		{horizon: 5 * time.Millisecond, name: "udp listener with batch writes", setup: func() []c19op {
 			fakenet.Reset()
 			lc := udp.ListenConfig{Batch: udp.BatchIOConfig{Enable: true, ReadBatchSize: 2, WriteBatchSize: 2, WriteBatchInterval: 2 * time.Millisecond}}
@@ -360,7 +387,7 @@ func c19objects() []c19obj {
 	}
 }
 
-func c19counts() []int { return []int{6, 4, 6, 6, 9, 7, 3, 8, 5, 3, 2} }
+func c19counts() []int { return []int{6, 4, 6, 6, 9, 7, 3, 8, 4, 5, 3, 2} }
 
 func init() {
 	register(&Check{ID: "C19", ShardByScenario: true,
@@ -379,7 +406,7 @@ func init() {
 				}
 				for i := 0; i < n; i++ {
 					for j := i; j < n; j++ {
-						if i == j && tier == "quick" && (oi == 4 || oi == 7 || oi == 8) {
+						if i == j && tier == "quick" && (oi == 4 || oi == 7 || oi == 9) {
 							continue // same operation twice on the three largest families: thorough only
 						}
 						if oi == 5 && i == 6 && j == 6 {
@@ -396,7 +423,7 @@ func init() {
 			}
 			return out
 		},
-		Rule: "programs: for each object (packet buffer, packet buffer with a full size-limited ring, deadline, dpipe, vnet socket + running router, NAT router under traffic, token bucket filter, delay+loss filter, UDP listener + connection, UDP listener with batch writes, two independent networks) every unordered pair (thorough: also each operation with itself and selected triples) of its concurrent-safe operations runs in separate threads after a sequential set-up; every schedule within the deviation bound runs under the Go race detector with a scheduler hand-off invisible to it; a violation is a detector report whose two accesses are both in repository code, or a panic of the library in such a program (double close, runtime map-access abort)",
+		Rule: "programs: for each object (packet buffer, packet buffer with a full size-limited ring, deadline, dpipe, vnet socket + running router, NAT router under traffic, token bucket filter, delay+loss filter, UDP listener + connection, UDP listener without connections, UDP listener with batch writes, two independent networks) every unordered pair (thorough: also each operation with itself and selected triples) of its concurrent-safe operations runs in separate threads after a sequential set-up; every schedule within the deviation bound runs under the Go race detector with a scheduler hand-off invisible to it; a violation is a detector report whose two accesses are both in repository code, or a panic of the library in such a program (double close, runtime map-access abort)",
 		Assumptions: []string{"the race detector keeps a bounded shadow history per memory word; the harnesses are short, so eviction is unlikely but possible",
 			"operations documented as construction-only (TBFQueueSizeInBytes, Bridge.SetLossChance) are not in the alphabet",
 			"happens-before edges of mutex/rwmutex/waitgroup/once/channel/timer/go are re-created for the detector by the shim (runtime.RaceAcquire/Release); the real channel, atomic and go operations are executed by the thread itself"}})
